@@ -4,7 +4,7 @@ Clause bodies are *strings holding Python expressions*; they are parsed (ast) an
 same symbolic evaluator that executes the code, in spec mode (old(), result, implies(), forall ...).
 """
 import ast
-from .core import INT, REAL, BOOL, STR, ANY, REF, TUP, OPT, LIST, DICT, MAP, SpecError  # noqa: F401
+from .core import INT, REAL, BOOL, STR, ANY, REF, TUP, OPT, LIST, DICT, SORTED_DICT, PYTUP, MAP, SpecError  # noqa: F401
 
 
 class Model:
@@ -17,6 +17,8 @@ class Model:
         self.value = value          # immutable value class: tuple of its fields
         self.module = module
         self.elem_hooks = elem_hooks
+        self.view = None
+        self.none_as_empty = set()
 
 
 class Contract:
@@ -60,7 +62,11 @@ class Contract:
         self.assume_entry = _lst(kw.pop("assume_entry", []))   # extra entry assumptions (listed in evidence)
         self.assume_on_close = _lst(kw.pop("assume_on_close", []))
         # protocol facts assumed whenever the function is resumed by an interrupt (`sig`) -- listed as assumptions
-        self.assume_on_wakeup = _lst(kw.pop("assume_on_wakeup", []))   # protocol facts that hold whenever GeneratorExit arrives
+        self.assume_on_wakeup = _lst(kw.pop("assume_on_wakeup", []))
+        # labels of non-suspending loops at whose head every class invariant in scope holds (checked, then assumed)
+        self.loop_consistent = _lst(kw.pop("loop_consistent", []))
+        # ensures are proved in order, each may use the earlier ones as lemmas (assert-then-assume)
+        self.chain_ensures = kw.pop("chain_ensures", False)   # protocol facts that hold whenever GeneratorExit arrives
         self.assume_all = _lst(kw.pop("assume_all", []))       # invariants ('Class.name') assumed for *all* objects at entry
         self.self_cls = kw.pop("self_cls", None)
         self.step = kw.pop("step", None)             # async generator: per-step contract
@@ -111,8 +117,13 @@ class Registry:
 REG = Registry()
 
 
-def model(name, fields=None, ghost=None, final=(), value=False, module=None, elem_hooks=None, ghost_defaults=None):
+def model(name, fields=None, ghost=None, final=(), value=False, module=None, elem_hooks=None, ghost_defaults=None, view=None,
+          none_as_empty=()):
+    """view: name of an abstract (pseudo) model whose ghost fields and abstract contracts this class implements"""
     REG.models[name] = Model(name, fields or {}, ghost or {}, final, value, module, elem_hooks or {}, ghost_defaults)
+    REG.models[name].view = view
+    # list fields whose initial `None` (= "not in use yet") is represented by the empty list
+    REG.models[name].none_as_empty = set(none_as_empty)
 
 
 _DEFAULT_SCOPE = [None]
